@@ -54,6 +54,20 @@ extern "C" {
     fn polynomial_len(p: P) -> usize;
     fn polynomial_get_coeffs(p: P, buf: *mut f64, max_len: usize) -> usize;
     fn destroy_polynomial(p: P);
+    fn new_polynomial(coeffs: *const f64, len: usize) -> P;
+    fn wmc_param_f64_var_weight(w: P, var: u64) -> WeightF64;
+    fn weight_f64_lo(w: WeightF64) -> f64;
+    fn weight_f64_hi(w: WeightF64) -> f64;
+    fn wmc_param_complex_var_weight(w: P, var: u64) -> WeightComplex;
+    fn weight_complex_lo(w: WeightComplex) -> Complex;
+    fn weight_complex_hi(w: WeightComplex) -> Complex;
+    fn wmc_param_poly_var_weight(w: P, var: u64) -> WeightPoly;
+    fn bdd_new_label(b: P) -> u64;
+    fn bdd_scratch(f: P, default: usize) -> usize;
+    fn bdd_set_scratch(f: P, val: usize);
+    fn bdd_clear_scratch(f: P);
+    fn print_bdd(f: P) -> *const c_char;
+    fn bdd_num_recursive_calls(b: P) -> usize;
     // CNF / order / dtree / vtree / decision-DNNF / SDD wrappers
     fn literal_new(label: u64, polarity: bool) -> u64;
     fn cnf_new(clauses: *const CClause, len: usize) -> P;
@@ -70,6 +84,17 @@ extern "C" {
     fn sdd_builder_new(vtree: P) -> P;
     fn sdd_builder_compile_cnf(builder: P, cnf: P) -> P;
     fn sdd_wmc(sdd: P, wmc: P) -> f64;
+}
+#[repr(C)]
+#[derive(Clone, Copy)]
+struct WeightF64(f64, f64);
+#[repr(C)]
+#[derive(Clone, Copy)]
+struct WeightComplex(Complex, Complex);
+#[repr(C)]
+struct WeightPoly {
+    low: P,
+    high: P,
 }
 #[repr(C)]
 struct CClause {
@@ -235,6 +260,44 @@ fn run_cnf_pipeline(case: &str, st: &mut Stats) -> Outcome {
         let bd = robdd_builder_compile_cnf(bb, mk_cnf());
         let btab: Vec<bool> = (0..(1usize << nv)).map(|a| c_eval(bd, a)).collect();
         if btab != tt { fails.push("robdd_builder_compile_cnf: the diagram read through the C accessors denotes a different function than the CNF".to_string()); }
+        // model counts on a manager whose order is not the identity: the compiled diagram, its
+        // children, and every literal (one skipped level above or below the tested variable)
+        {
+            let pop = |f: &dyn Fn(usize) -> bool| (0..(1usize << cnv)).filter(|a| f(*a)).count() as u64;
+            let mc = robdd_model_count(bb, bd);
+            if mc != pop(&|a| tt[a]) { fails.push(format!("robdd_model_count on the manager with order {native_order} = {mc}, the CNF has {} models over its {cnv} variables", pop(&|a| tt[a]))); }
+            if !bdd_is_const(bd) {
+                for ch in [bdd_low(bd), bdd_high(bd)] {
+                    let mc = robdd_model_count(bb, ch);
+                    let want = pop(&|a| c_eval(ch, a));
+                    if mc != want { fails.push(format!("robdd_model_count of a child of the compiled diagram (order {native_order}) = {mc}, it has {want} models")); }
+                }
+            }
+            for v in 0..cnv {
+                let l = bdd_var(bb, v as u64, v % 2 == 0);
+                let mc = robdd_model_count(bb, l);
+                if mc != 1u64 << (cnv - 1) { fails.push(format!("robdd_model_count of the literal of variable {v} (order {native_order}) = {mc}, expected {}", 1u64 << (cnv - 1))); }
+                let g = bdd_and(bb, l, bd);
+                let (mg, want) = (robdd_model_count(bb, g), pop(&|a| tt[a] && (((a >> v) & 1 == 1) == (v % 2 == 0))));
+                if mg != want { fails.push(format!("robdd_model_count(literal {v} and CNF) = {mg}, expected {want}")); }
+            }
+        }
+        // cnf_new with an empty clause among the others (len 0, non-null pointer): the CNF is
+        // unsatisfiable, exactly as Cnf::new on the same clause list
+        {
+            let mut raw2 = raw.clone();
+            raw2.insert(raw.len() / 2, vec![]);
+            let mut words: Vec<Vec<u64>> = raw2.iter().map(|c| c.iter().map(|(v, p)| literal_new(*v, *p)).collect()).collect();
+            let cls: Vec<CClause> = words.iter_mut().map(|w| CClause { vars: if w.is_empty() { std::ptr::NonNull::<u64>::dangling().as_ptr() } else { w.as_mut_ptr() }, len: w.len() }).collect();
+            let ce = cnf_new(cls.as_ptr(), cls.len());
+            let ne = to_cnf(&raw2);
+            if (*(ce as *const Cnf)).clauses() != ne.clauses() || (*(ce as *const Cnf)).num_vars() != ne.num_vars() {
+                fails.push("cnf_new on a clause list with an empty clause builds a different CNF than Cnf::new".to_string());
+            }
+            let be = robdd_builder_all_table(var_order_linear(ne.num_vars().max(1)));
+            let de = robdd_builder_compile_cnf(be, ce);
+            if !bdd_is_false(de) { fails.push("a CNF with an empty clause built by cnf_new does not compile to false".to_string()); }
+        }
         // decision-DNNF (consumes an order)
         let db = ddnnf_builder_new(mk_order(okind));
         let dd = ddnnf_builder_compile_cnf_topdown(db, c1);
@@ -314,6 +377,36 @@ pub fn run(case: &str, st: &mut Stats) -> Outcome {
             let (lc, hc) = poly_weight(v, w[v]);
             wmc_param_poly_set_weight(wp, v as u64, lc.as_ptr(), lc.len(), hc.as_ptr(), hc.len());
         }
+        // weights read back through the C getters (struct by value, field accessors, heap copies)
+        let coeffs_of = |q: P| -> Vec<f64> { let mut buf = vec![0.0f64; 40]; let k = polynomial_get_coeffs(q, buf.as_mut_ptr(), 40); buf.truncate(k); buf };
+        for v in 0..total {
+            let wf = wmc_param_f64_var_weight(wr, v as u64);
+            if wf.0 != w[v].0 || wf.1 != w[v].1 || weight_f64_lo(wf) != w[v].0 || weight_f64_hi(wf) != w[v].1 {
+                fails.push(format!("wmc_param_f64_var_weight({v}) / weight_f64_lo/hi give ({}, {}), set_weight stored ({}, {})", weight_f64_lo(wf), weight_f64_hi(wf), w[v].0, w[v].1));
+            }
+            let wx = wmc_param_complex_var_weight(wc, v as u64);
+            let (xl, xh) = (Complex { re: w[v].0, im: w[v].1 }, Complex { re: w[v].1, im: -w[v].0 });
+            if weight_complex_lo(wx) != xl || weight_complex_hi(wx) != xh || wx.0 != xl || wx.1 != xh {
+                fails.push(format!("wmc_param_complex_var_weight({v}) / weight_complex_lo/hi differ from the stored weights"));
+            }
+            let (lc, hc) = poly_weight(v, w[v]);
+            let wq = wmc_param_poly_var_weight(wp, v as u64);
+            let keep = |c: &[f64]| c[..c.len().min(32)].to_vec();
+            if coeffs_of(wq.low) != keep(&lc) || coeffs_of(wq.high) != keep(&hc) || polynomial_len(wq.low) != lc.len().min(32) || polynomial_len(wq.high) != hc.len().min(32) {
+                fails.push(format!("wmc_param_poly_var_weight({v}) returns polynomials {:?} / {:?}, stored {:?} / {:?}", coeffs_of(wq.low), coeffs_of(wq.high), keep(&lc), keep(&hc)));
+            }
+            destroy_polynomial(wq.low);
+            destroy_polynomial(wq.high);
+            // new_polynomial: the same marshalling on its own
+            let q = new_polynomial(hc.as_ptr(), hc.len());
+            if coeffs_of(q) != keep(&hc) || polynomial_len(q) != hc.len().min(32) {
+                fails.push(format!("new_polynomial of {} coefficients reads back as {:?}", hc.len(), coeffs_of(q)));
+            }
+            destroy_polynomial(q);
+        }
+        let q0 = new_polynomial(std::ptr::null(), 0);
+        if polynomial_len(q0) != 0 { fails.push("new_polynomial(null, 0) is not the zero polynomial".to_string()); }
+        destroy_polynomial(q0);
         let nreal: WmcParams<RealSemiring> = WmcParams::new(HashMap::from_iter((0..total).map(|v| (VarLabel::new(v as u64), (RealSemiring(w[v].0), RealSemiring(w[v].1))))));
         let ncx: WmcParams<Complex> = WmcParams::new(HashMap::from_iter((0..total).map(|v| (VarLabel::new(v as u64), (Complex { re: w[v].0, im: w[v].1 }, Complex { re: w[v].1, im: -w[v].0 })))));
         // native polynomial from a coefficient slice: at most MAX_COEFFS = 32 coefficients are kept
@@ -354,6 +447,21 @@ pub fn run(case: &str, st: &mut Stats) -> Outcome {
             let got = polynomial_get_coeffs(cp, buf.as_mut_ptr(), 32);
             if polynomial_len(cp) != np.len || got != np.len || (0..np.len).any(|i| buf[i] != np.coefficients[i].0) { fails.push(format!("entry {k}: bdd_wmc_poly differs from the native polynomial count")); }
             destroy_polynomial(cp);
+            // scratch accessors: default when empty, value after set, default again after clear
+            if !n.is_const() {
+                let d = 77 + k;
+                let s0 = bdd_scratch(c, d);
+                bdd_set_scratch(c, 1000 + k);
+                let s1 = bdd_scratch(c, d);
+                bdd_clear_scratch(c);
+                let s2 = bdd_scratch(c, d);
+                if s0 != d || s1 != 1000 + k || s2 != d {
+                    fails.push(format!("entry {k}: bdd_scratch/set/clear give {s0}, {s1}, {s2}; expected {d}, {}, {d}", 1000 + k));
+                }
+            }
+            // print_bdd is the native printer's text
+            let ptxt = CStr::from_ptr(print_bdd(c)).to_str().unwrap().to_string();
+            if ptxt != n.print_bdd() { fails.push(format!("entry {k}: print_bdd gives {ptxt}, native {}", n.print_bdd())); }
             // JSON
             let js: serde_json::Value = serde_json::from_str(CStr::from_ptr(bdd_to_json(c)).to_str().unwrap()).unwrap();
             if (0..(1usize << total)).any(|a| json_eval(&js, &js["roots"][0], a) != spec[k][a]) { fails.push(format!("entry {k}: the JSON node table from bdd_to_json denotes a different function")); }
@@ -372,6 +480,15 @@ pub fn run(case: &str, st: &mut Stats) -> Outcome {
             classes.push(cls.to_string());
         }
         line.push_str(&format!("eq {}", classes.join(" ")));
+        // statistics and fresh labels through the C API: same numbers as the native manager, which
+        // ran the same operations
+        let (crc, nrc) = (bdd_num_recursive_calls(m), match &nb { AnyBuilder::All(b) => b.num_recursive_calls(), AnyBuilder::Lru(b) => b.num_recursive_calls() });
+        if crc != nrc { fails.push(format!("bdd_num_recursive_calls = {crc}, the native manager after the same operations reports {nrc}")); }
+        let (cl, nl) = (bdd_new_label(m), match &nb { AnyBuilder::All(b) => b.new_label().value(), AnyBuilder::Lru(b) => b.new_label().value() });
+        if cl != nl || cl != total as u64 { fails.push(format!("bdd_new_label = {cl}, native new_label = {nl}, expected the next free label {total}")); }
+        let fresh = bdd_var(m, cl, true);
+        if bdd_topvar(fresh) != cl { fails.push(format!("the variable of the fresh label {cl} has top variable {}", bdd_topvar(fresh))); }
+        drop(Box::from_raw(fresh as *mut BddPtr<'static>));
         for c in cpool { drop(Box::from_raw(c as *mut BddPtr<'static>)); }
         free_wmc_params_f64(wr);
         free_wmc_params_complex(wc);
